@@ -57,8 +57,13 @@
 //     order and with which arguments" is part of the translated meaning; calls
 //     listed under "pure" are opaque values that are not traced; a call to a
 //     translated function that itself has opaque parameters is opaque too;
+//   - with "trace", a deferred call is appended to the trace at every exit
+//     reached after the defer statement (arguments as evaluated at the defer);
 //   - calls listed under "ignore" (mutex operations, logging, metrics) are
-//     dropped; methods listed under "identity" return their receiver;
+//     dropped, and so is `defer func() { err = errors.Annotate(err, …) }()`;
+//     "lit": n translates the n-th function literal inside the named function
+//     (the handler closure a middleware's Wrap returns), with the enclosing
+//     receiver in scope; methods listed under "identity" return their receiver;
 //   - "recv_nonnil" models a pointer receiver as the struct itself (the
 //     assumption that callers never pass nil is stated where it is used).
 //
@@ -99,6 +104,10 @@ type TrFunc struct {
 	Ignore []string `json:"ignore,omitempty"`
 	// Trace makes the definition return the list of opaque calls reached.
 	Trace bool `json:"trace,omitempty"`
+	// Lit > 0 selects the Lit-th function literal (in source order) inside
+	// Func: its body is translated as a function of its own parameters, with
+	// the enclosing function's receiver and parameters in scope.
+	Lit int `json:"lit,omitempty"`
 	// RecvNonNil models the pointer receiver as the struct itself: callers
 	// are assumed never to pass nil (stated where it is used).
 	RecvNonNil bool `json:"recv_nonnil,omitempty"`
@@ -402,6 +411,7 @@ type fctx struct {
 	localFns    map[string]*ast.FuncLit
 	loop        *loopCtx
 	opaqueVals  map[string]string
+	defers      []string
 	opaqueNodes map[ast.Expr]string
 	opaqueCalls map[*ast.CallExpr]string
 }
@@ -666,10 +676,7 @@ func (c *fctx) expr(e ast.Expr) ex {
 // opaqueValue turns an expression the subset cannot express (an element of a
 // slice, a field of a library struct) into an extra parameter holding its value.
 func (c *fctx) opaqueValue(e ast.Expr) ex {
-	lt := c.t.leanType(c.typeOf(e))
-	if lt == "" {
-		fail("expression %s has untranslatable type %s", c.show(e), c.typeOf(e))
-	}
+	lt := c.t.valType(c.typeOf(e))
 	key := c.show(e)
 	if c.opaqueVals == nil {
 		c.opaqueVals = map[string]string{}
@@ -716,7 +723,7 @@ func (c *fctx) selector(x *ast.SelectorExpr) ex {
 		fail("embedded field path %s", c.show(x))
 	}
 	if c.t.leanType(sel.Obj().Type()) == "" {
-		fail("field %s has untranslatable type %s", c.show(x), sel.Obj().Type())
+		return c.opaqueValue(x)
 	}
 	base := c.expr(x.X)
 	f := leanIdent(x.Sel.Name)
@@ -1078,13 +1085,40 @@ func (c *fctx) traceArg(a ast.Expr) (code string) {
 	if lt != "Int" && lt != "Bool" && lt != "String" {
 		return code
 	}
-	// Do not let a nested opaque call allocate parameters from here.
-	savedN, savedO, savedP := c.nOpaque, len(c.opaque), c.partial
-	e := c.expr(a)
-	if e.partial || strings.Contains(e.code, "«call:") || c.nOpaque != savedN {
+	// Do not let a nested opaque call allocate parameters from here (values
+	// read from abstract objects are fine).
+	savedN, savedO, savedP, savedCalls := c.nOpaque, len(c.opaque), c.partial, len(c.opaqueCalls)
+	savedVals, savedNodes := map[string]string{}, map[ast.Expr]string{}
+	for k, v := range c.opaqueVals {
+		savedVals[k] = v
+	}
+	for k, v := range c.opaqueNodes {
+		savedNodes[k] = v
+	}
+	savedCallSet := map[*ast.CallExpr]bool{}
+	for k := range c.opaqueCalls {
+		savedCallSet[k] = true
+	}
+	revert := func() {
 		c.nOpaque, c.opaque, c.partial = savedN, c.opaque[:savedO], savedP
+		c.opaqueVals, c.opaqueNodes = savedVals, savedNodes
+		for k := range c.opaqueCalls {
+			if !savedCallSet[k] {
+				delete(c.opaqueCalls, k)
+			}
+		}
+	}
+	ok2 := false
+	defer func() {
+		if !ok2 {
+			revert()
+		}
+	}()
+	e := c.expr(a)
+	if e.partial || strings.Contains(e.code, "«call:") || len(c.opaqueCalls) != savedCalls {
 		return "\"_\""
 	}
+	ok2 = true
 	if lt == "String" {
 		return e.code
 	}
@@ -1194,10 +1228,16 @@ func (c *fctx) ret(vals []string) string {
 	default:
 		r = "(" + strings.Join(parts, ", ") + ")"
 	}
-	if c.loop != nil {
-		return "«step»(.ret " + r + ")"
+	pre := ""
+	if c.trace {
+		for i := len(c.defers) - 1; i >= 0; i-- {
+			pre += "let tr := tr ++ " + c.defers[i] + "\n"
+		}
 	}
-	return "«ret»" + r
+	if c.loop != nil {
+		return pre + "«step»(.ret " + r + ")"
+	}
+	return pre + "«ret»" + r
 }
 
 // loopCtx is the innermost enclosing range loop: its carried variables.
@@ -1457,6 +1497,24 @@ func (c *fctx) stmts(list []ast.Stmt) string {
 	case *ast.DeferStmt:
 		if c.matches(c.spec.Ignore, x.Call) {
 			return c.stmts(rest)
+		}
+		// `defer func() { err = errors.Annotate(err, …) }()` only decorates the
+		// text of a non-nil error; nil stays nil.
+		if fl, ok := x.Call.Fun.(*ast.FuncLit); ok && len(fl.Body.List) == 1 {
+			if as, ok := fl.Body.List[0].(*ast.AssignStmt); ok && len(as.Rhs) == 1 {
+				if call, ok := as.Rhs[0].(*ast.CallExpr); ok && strings.HasSuffix(c.show(call.Fun), "errors.Annotate") {
+					return c.stmts(rest)
+				}
+			}
+		}
+		if c.trace {
+			// the deferred call runs at every exit reached from here; its
+			// arguments are evaluated now
+			d := c.tmp("deferred")
+			c.defers = append(c.defers, d)
+			out := fmt.Sprintf("let %s : List (String × List String) := [%s]\n", d, c.traceEntry(x.Call)) + c.stmts(rest)
+			c.defers = c.defers[:len(c.defers)-1]
+			return out
 		}
 		fail("defer %s", c.show(x))
 	}
@@ -1760,6 +1818,9 @@ func (t *translator) findDecl(p *loadedPkg, name string) *ast.FuncDecl {
 func (t *translator) translate(sp TrFunc) (fo *funcOut) {
 	path := repoModule + sp.Pkg
 	key := path + "." + sp.Func
+	if sp.Lit > 0 {
+		key = fmt.Sprintf("%s#%d", key, sp.Lit)
+	}
 	if fo = t.funcs[key]; fo != nil {
 		if fo.busy {
 			fo.err = "recursive call"
@@ -1848,6 +1909,42 @@ func (t *translator) translate(sp TrFunc) (fo *funcOut) {
 		}
 		params = append(params, fmt.Sprintf("(%s : %s)", leanIdent(v.Name()), lt))
 	}
+	bodyStmts := fd.Body.List
+	if sp.Lit > 0 {
+		// translate the sp.Lit-th function literal of fd instead of fd itself
+		var lit *ast.FuncLit
+		n := 0
+		ast.Inspect(fd.Body, func(nd ast.Node) bool {
+			if fl, ok := nd.(*ast.FuncLit); ok {
+				n++
+				if n == sp.Lit {
+					lit = fl
+				}
+			}
+			return lit == nil
+		})
+		if lit == nil {
+			fail("function literal #%d not found in %s", sp.Lit, sp.Func)
+		}
+		lsig, ok := p.info.Types[lit].Type.(*types.Signature)
+		if !ok {
+			fail("no signature for function literal #%d", sp.Lit)
+		}
+		for i := 0; i < lsig.Params().Len(); i++ {
+			v := lsig.Params().At(i)
+			lt := t.leanType(v.Type())
+			if lt == "" {
+				if nilCompared[v.Name()] && t.valType(v.Type()) == "AbsPtr" {
+					params = append(params, fmt.Sprintf("(%s : AbsPtr)", leanIdent(v.Name())))
+				}
+				continue
+			}
+			params = append(params, fmt.Sprintf("(%s : %s)", leanIdent(v.Name()), lt))
+		}
+		fo.doc += fmt.Sprintf(" (function literal #%d)", sp.Lit)
+		sig = types.NewSignatureType(sig.Recv(), nil, nil, lsig.Params(), lsig.Results(), false)
+		bodyStmts = lit.Body.List
+	}
 	var resTypes []string
 	if c.recvMut {
 		rty := sig.Recv().Type()
@@ -1862,11 +1959,7 @@ func (t *translator) translate(sp TrFunc) (fo *funcOut) {
 		if v.Name() != "" {
 			c.named = true
 		}
-		lt := t.leanType(v.Type())
-		if lt == "" {
-			fail("result type %s", v.Type())
-		}
-		resTypes = append(resTypes, lt)
+		resTypes = append(resTypes, t.valType(v.Type()))
 	}
 	if c.trace {
 		resTypes = append(resTypes, "(List (String × List String))")
@@ -1874,13 +1967,13 @@ func (t *translator) translate(sp TrFunc) (fo *funcOut) {
 	pre := ""
 	if c.named {
 		for _, v := range c.results {
-			pre += fmt.Sprintf("let %s : %s := %s\n", leanIdent(v.Name()), t.leanType(v.Type()), c.zero(v.Type()))
+			pre += fmt.Sprintf("let %s : %s := %s\n", leanIdent(v.Name()), t.valType(v.Type()), c.zero(v.Type()))
 		}
 	}
 	if c.trace {
 		pre += "let tr : List (String × List String) := []\n"
 	}
-	body := pre + c.stmts(fd.Body.List)
+	body := pre + c.stmts(bodyStmts)
 	rt := "Unit"
 	if len(resTypes) == 1 {
 		rt = resTypes[0]
